@@ -94,6 +94,20 @@ def run(prog, R):
                     pass
                 # simple exploration restricted to the component
                 back = eof_returns(prog, b, comp, se)
+                if back and any(str(b.local_ty(i_)).startswith("impl Fn") or "Fn(" in str(b.local_ty(i_)) for i_ in range(1, b.nargs + 1)):
+                    # the loop's exit test is a predicate handed in by the callers: decided per caller, with the helper
+                    # and the predicate looked into (run from the caller's entry under the end-of-input model; a path
+                    # that is still inside the loop after three rounds stays in it)
+                    cgx_ = prog.callgraph()
+                    cs_ = [k_ for k_, v_ in cgx_.items() if fn in v_ and k_.startswith("oq3_lexer::")]
+                    stays = not cs_
+                    for k_ in cs_:
+                        kb_ = prog.body(k_)
+                        se2 = SymExec(prog, kb_, call_model=eof_model, max_visits=3, max_paths=2000,
+                                      inline=lambda c, fn=fn: c == fn or "{closure" in c or c in ("oq3_lexer::is_whitespace", "oq3_lexer::is_id_start", "oq3_lexer::is_id_continue"))
+                        if any("__cut__" in p_.env for p_ in se2.paths()) or se2.truncated:
+                            stays = True
+                    back = stays
                 R.ob("C01.1-lexer-eof-exit", key, not back, at, "at end of input (first()=='\\0', is_eof(), bump()==None) every path leaves the loop" if not back else "at end of input some path stays in the loop")
             elif next_blocks and cycles_pass_through(b, comp, next_blocks):
                 its = sorted(set(calls[x] for x in next_blocks))
